@@ -24,12 +24,17 @@ Range(sq) == {sq[k] : k \in 1..Len(sq)}
 -----------------------------------------------------------------------------
 (* C01: observed snapshot = Snapshot(doc, t) *)
 
+MayPaint(rec, R) == IF "rpaint" \in DOMAIN rec THEN rec.rpaint[R + 1] = 1 ELSE TRUE
+
 C01At(rec, j) ==
   LET t    == rec.times[j]
       snap == Snapshot(rec.doc, t)
       ob   == rec.obs[j]
       rids == [k \in 1..Len(ob) |-> ob[k].rid]
-  IN  /\ Chk(Range(rids) = DOMAIN snap /\ Len(ob) = Cardinality(DOMAIN snap), rec.id, t, "c01_regions_shown")
+      \* a region without content that cannot paint a background presents nothing: listing it or not is immaterial
+      must == {R \in DOMAIN snap : snap[R].leaves # <<>> \/ MayPaint(rec, R)}
+  IN  /\ Chk(Range(rids) \subseteq DOMAIN snap /\ must \subseteq Range(rids) /\ Len(ob) = Cardinality(Range(rids)),
+             rec.id, t, "c01_regions_shown")
       /\ Chk(\A a, b \in 1..Len(ob) : a < b => rids[a] < rids[b], rec.id, t, "c01_region_order")
       /\ \A k \in 1..Len(ob) :
            IF ob[k].rid \notin DOMAIN snap THEN TRUE
